@@ -829,6 +829,12 @@ func (vc *VC) isGhostFam(fam string) bool {
 	if !strings.HasPrefix(fam, "H_") {
 		return false
 	}
-	_, ok := vc.S.Ghosts[fam[2:]]
-	return ok
+	if _, ok := vc.S.Ghosts[fam[2:]]; ok {
+		return true
+	}
+	name := fam[2:]
+	if i := strings.IndexAny(name, "#"); i >= 0 {
+		name = name[:i]
+	}
+	return vc.S.Immutable[name]
 }
